@@ -249,6 +249,8 @@ def sample_tt(n, r=4, seed=None):
         specified expected TT-rank (r).
 
     """
+    n = np.asanyarray(n, dtype=int)
+
     def one_mode(sh1, sh2, rng):
         res = []
         if len(sh2) == 0:
